@@ -288,6 +288,8 @@ const (
 	ReasonBadUpdate     = "bad-update-structure"
 	ReasonOperandParen  = "parenthesised-operand"
 	ReasonTooLong       = "too-long"
+	ReasonValueAsPath   = "value-placeholder-where-a-path-is-required"
+	ReasonPathAsValue   = "path-where-a-value-placeholder-is-required"
 )
 
 func serr(reason, format string, a ...interface{}) *SyntaxError {
@@ -554,6 +556,21 @@ func (p *parser) parsePrimaryCond() (Expr, *SyntaxError) {
 	if err != nil {
 		return nil, err
 	}
+	e, err := p.parseComparisonTail(op)
+	if err != nil {
+		return nil, err
+	}
+	// a comparison cannot be compared again: a = b = c, a = b BETWEEN ..., a IN (..) = b
+	if nt := p.peek(); nt.kind == tOp || isKw(nt, "BETWEEN") || isKw(nt, "IN") {
+		if _, plain := e.(Func); !plain {
+			return nil, serr(ReasonChainedCmp, "chained comparison at %d", nt.pos)
+		}
+	}
+	return e, nil
+}
+
+// parseComparisonTail parses what follows the first operand of a condition.
+func (p *parser) parseComparisonTail(op Expr) (Expr, *SyntaxError) {
 	nt := p.peek()
 	switch {
 	case nt.kind == tOp:
@@ -643,6 +660,9 @@ func (p *parser) parseOperand(cond bool) (Expr, *SyntaxError) {
 	switch t.kind {
 	case tValue:
 		p.next()
+		if k := p.peek().kind; k == tDot || k == tLBracket {
+			return nil, serr(ReasonValueAsPath, "document path starting at the value placeholder %s", t.text)
+		}
 		return ValueRef{t.text}, nil
 	case tIdent:
 		if cond && isAnyKw(t, condKeywords) || !cond && isAnyKw(t, updKeywords) {
@@ -804,6 +824,12 @@ func (p *parser) parseAction(kind string) (Action, *SyntaxError) {
 	if t.kind == tEOF {
 		return Action{}, serr(ReasonDangling, "%s without an action", kind)
 	}
+	if t.kind == tValue {
+		return Action{}, serr(ReasonValueAsPath, "action must start with a path, got %q at %d", t.text, t.pos)
+	}
+	if t.kind == tLParen {
+		return Action{}, serr(ReasonOperandParen, "parenthesised action target at %d", t.pos)
+	}
 	if t.kind != tIdent && t.kind != tAlias {
 		return Action{}, serr(ReasonBadUpdate, "action must start with a path, got %q at %d", t.text, t.pos)
 	}
@@ -832,6 +858,9 @@ func (p *parser) parseAction(kind string) (Action, *SyntaxError) {
 		if v.kind != tValue {
 			if v.kind == tEOF {
 				return Action{}, serr(ReasonDangling, "%s action without a value", kind)
+			}
+			if v.kind == tIdent && !isAnyKw(v, updKeywords) || v.kind == tAlias {
+				return Action{}, serr(ReasonPathAsValue, "%s needs a :value operand, got %q at %d", kind, v.text, v.pos)
 			}
 			return Action{}, serr(ReasonBadUpdate, "%s needs a :value operand, got %q at %d", kind, v.text, v.pos)
 		}
